@@ -157,6 +157,11 @@ def mul(a, b):
         return seq(a[1] * int(b[1]))
     if b[0] == "seq" and a[0] == "num" and a[1].denominator == 1 and a[1] >= 0:
         return seq(b[1] * int(a[1]))
+    # a constant factor goes into both branches of a choice: -(1 if c else -1) == (-1 if c else 1)
+    if a[0] == "num" and b[0] == "phi" and b[2][0] == "num" and b[3][0] == "num":
+        return phi(b[1], mul(a, b[2]), mul(a, b[3]))
+    if b[0] == "num" and a[0] == "phi" and a[2][0] == "num" and a[3][0] == "num":
+        return phi(a[1], mul(a[2], b), mul(a[3], b))
     pa, pb = _as_poly(a), _as_poly(b)
     out = {}
     for m1, c1 in pa.items():
